@@ -151,7 +151,7 @@ type world struct {
 }
 
 func setup(p params) (*world, error) {
-	w := &world{p: p, env: coreh.NewEnv(memstore.Config{})}
+	w := &world{p: p, env: coreh.NewEnv(memstore.Config{ChunkedReader: []int{0, 0, 0, 7}[p.Seed%4], EOFWithData: (p.Seed/4)%3 == 1})}
 	w.content = gen.Bytes(p.Seed, "object", p.Len)
 	w.tree = coreh.Tree{"dir/object.bin": w.content, "other.bin": gen.Bytes(p.Seed, "other", p.Len+p.Leaf/2), "small.txt": gen.Bytes(p.Seed, "small", 10)}
 	if err := w.env.CreateRepo(nil, "r"); err != nil {
